@@ -67,6 +67,7 @@ func reachPS(fn *ssa.Function, from ssa.Instruction, isTarget func(ssa.Instructi
 		f    facts
 		phis map[*ssa.Phi]ssa.Value
 		path []int
+		pred int // index+1 in b.Preds of the edge this state entered b through (0: start state)
 	}
 	clonef := func(f facts) facts {
 		o := facts{}
@@ -84,10 +85,10 @@ func reachPS(fn *ssa.Function, from ssa.Instruction, isTarget func(ssa.Instructi
 	}
 	var start state
 	if from == nil {
-		start = state{fn.Blocks[0], 0, facts{}, map[*ssa.Phi]ssa.Value{}, []int{0}}
+		start = state{fn.Blocks[0], 0, facts{}, map[*ssa.Phi]ssa.Value{}, []int{0}, 0}
 	} else {
 		b := from.Block()
-		start = state{b, indexOf(b, from) + 1, facts{}, map[*ssa.Phi]ssa.Value{}, []int{b.Index}}
+		start = state{b, indexOf(b, from) + 1, facts{}, map[*ssa.Phi]ssa.Value{}, []int{b.Index}, 0}
 	}
 	visited := map[string]bool{}
 	stack := []state{start}
@@ -120,7 +121,10 @@ func reachPS(fn *ssa.Function, from ssa.Instruction, isTarget func(ssa.Instructi
 			iff, _ = s.b.Instrs[n-1].(*ssa.If)
 		}
 		for slot, succ := range s.b.Succs {
-			if blockedE != nil && blockedE[edge{s.b.Index, slot}] {
+			if blockedE != nil && (blockedE[edge{s.b.Index, slot, 0}] || s.pred > 0 && blockedE[edge{s.b.Index, slot, s.pred}]) {
+				continue
+			}
+			if infeasibleThreaded(s.b, slot, s.pred) {
 				continue
 			}
 			nf := s.f
@@ -204,6 +208,9 @@ func reachPS(fn *ssa.Function, from ssa.Instruction, isTarget func(ssa.Instructi
 				}
 			}
 			k := key(succ.Index, nf)
+			if _, _, ok := condPhi(succ); ok {
+				k += "<" + itoa(predSlot(s.b, slot, succ))
+			}
 			{
 				var ps []string
 				for ph, r := range np {
@@ -217,7 +224,7 @@ func reachPS(fn *ssa.Function, from ssa.Instruction, isTarget func(ssa.Instructi
 			}
 			visited[k] = true
 			np2 := append(append([]int{}, s.path...), succ.Index)
-			stack = append(stack, state{succ, 0, nf, np, np2})
+			stack = append(stack, state{succ, 0, nf, np, np2, predSlot(s.b, slot, succ)})
 		}
 	}
 	return false, nil
